@@ -189,6 +189,9 @@ def corpus():
                             dict(op='by_rule', rule='/a/b/'), dict(op='remove', rule='/a/b/'), dict(op='by_rule', rule='/a/b'),
                             dict(op='remove_hook', rule='/a/b/'),
                             dict(op='remove_obj', rule='/a/<x>/'), dict(op='remove', rule='/ab//'), A('/a/b/', 6, name='n2')], full=True))
+    # nested route hooks that RETURN values (True, the prefix, a counter): every hook fires, then the route callback
+    cs.append(_with_probes([dict(op='add_hook', rule='/', h=50), dict(op='add_hook', rule='/a', h=52), dict(op='add_hook', rule='/a/b', h=53),
+                            A('/a/b/c', 1), A('/a/b', 2), dict(op='add_hook', rule='/a/<x>', h=54), A('/a/<x>/c', 3)], full=True))
     # rex rules with a selector can be removed / found by their rule text and by name; their hooks too
     cs.append(_with_probes([A('/r/<x.rex((a)|(b))[1]>', 1, name='n1'), A('/r/<x.rex((a)|(b))[2]>/z', 2),
                             dict(op='add_hook', rule='/r/<x.rex((a)|(b))[1]>', h=50), A('/a/b', 3),
@@ -525,6 +528,9 @@ def _oracle(case, obs):
                 route = ep[0].route
                 exp = _expected_hooks(router, route, p['path'].strip('/'), p['path'])
                 got = [(''.join(map(chr, cc[2])), cc[1]) for cc in x['wsgi']['calls'] if cc[0] == 'hook']
+                if x['wsgi'].get('status') != 200 or not x['wsgi']['calls'] or x['wsgi']['calls'][-1][0] != 'handler':
+                    # whatever the hooks return, the route callback runs last and its answer is the response
+                    return 'after %s: %s has a route and a handler but through WSGI: %s' % (_show(c), _show(p), _short(x['wsgi']))
                 if exp is None or [(s, a.hid_of(fn)) for s, fn in exp] != got:
                     return 'after %s: %s fired hooks %s, expected %s' % (
                         _show(c), _show(p), got, None if exp is None else [(s, a.hid_of(fn)) for s, fn in exp])
